@@ -76,19 +76,6 @@ theorem eiReg_lower (e : EIEntry) (h : e ∈ easyId3Registry) : pyLower e.key = 
 theorem eiEntryOf_plain (e : EIEntry) (he : e ∈ easyId3Registry) : eiEntryOf (.str e.key) = some (e, e.key) := by
   simp [eiEntryOf, eiReg_lower e he, eiFind_of_plain e he]
 
-/-- the entry of a good registered key: a plain registry entry filed under the lower-cased key -/
-theorem eiEntryOf_good (k : PKey) (e : EIEntry) (kt : Text) (h : eiEntryOf k = some (e, kt)) (hg : eiGoodKey k = true) :
-    eiGood e = true ∧ e ∈ easyId3Registry ∧ k = .str kt ∧ e.key = pyLower kt := by
-  have hp : eiGood e = true := by simpa [eiGoodKey, h] using hg
-  cases k with
-  | str t =>
-    simp only [eiEntryOf, Option.map_eq_some_iff, Prod.mk.injEq] at h
-    obtain ⟨e', h1, h2, h3⟩ := h
-    subst h2; subst h3
-    obtain ⟨hm, hk⟩ := eiFind_plain_key _ _ h1 hp
-    exact ⟨hp, hm, rfl, hk⟩
-  | _ => simp [eiEntryOf] at h
-
 /-- invariant of the native tags under the plain-key part of the view: unique HashKeys, every
 frame of the shape its HashKey calls for (so: no TMCL, no RVA2 frame) -/
 def EasyId3Inv (s : Id3) : Prop := NodupKeys s ∧ ∀ p ∈ s, frameOK p.1 p.2 = true
@@ -101,7 +88,7 @@ theorem inv_lookup (s : Id3) (hs : EasyId3Inv s) (hk : Text) (f : IFrame) (h : l
 theorem eiGet_congr (s1 s2 : Id3) (e : EIEntry) (kt : Text) (hk : Text) (h : hkOf e = some hk)
     (hl : lookup hk s1 = lookup hk s2) : eiGet s1 e kt = eiGet s2 e kt := by
   unfold hkOf at h
-  unfold eiGet
+  unfold eiGet perfRead
   cases hkd : e.kind <;> simp only [hkd] at h ⊢ <;> first
     | (simp only [Option.some.injEq] at h; subst h; rw [hl])
     | simp at h
@@ -283,7 +270,7 @@ theorem slotFrame_ok (e : EIEntry) (he : e ∈ easyId3Registry) (v : PVal) (f : 
 theorem eiGet_none (s : Id3) (e : EIEntry) (kt hk : Text) (h : hkOf e = some hk) (hl : lookup hk s = none) :
     eiGet s e kt = .error .key := by
   unfold hkOf at h
-  unfold eiGet
+  unfold eiGet perfRead
   cases hkd : e.kind <;> simp only [hkd] at h ⊢ <;> try (simp at h; done)
   all_goals (simp only [Option.some.injEq] at h; subst h; rw [hl])
 
@@ -487,7 +474,142 @@ theorem web_get_cons (s : Id3) (e : EIEntry) (kt : Text) (h : e.kind = .website)
     eiGet s e kt = .ok (textsVal (a :: t)) := by
   unfold eiGet; simp only [h, hf]
 
-/-! ### good entries -/
+/-! ### the glob entry `performer:*` -/
+
+/-- the registry entry `performer:*` -/
+def perfEntry : EIEntry := ⟨pPerformer ++ [42], .performer⟩
+
+theorem perfEntry_mem : perfEntry ∈ easyId3Registry := by decide +kernel
+
+theorem perf_unique (e : EIEntry) (he : e ∈ easyId3Registry) (h : e.kind = .performer) : e = perfEntry := by
+  have h1 : easyId3Registry.all (fun x => !(x.kind == .performer) || x == perfEntry) = true := by decide +kernel
+  have := List.all_eq_true.1 h1 e he
+  simpa [h] using this
+
+theorem perfPrefix_unique (e : EIEntry) (he : e ∈ easyId3Registry) (h : startsWith pPerformer e.key = true) :
+    e = perfEntry := by
+  have h1 : easyId3Registry.all (fun x => !startsWith pPerformer x.key || x == perfEntry) = true := by decide +kernel
+  have := List.all_eq_true.1 h1 e he
+  simpa [h] using this
+
+theorem globMatch_star (s : Text) : globMatch [42] s = true := by
+  unfold globMatch
+  simp only [↓reduceIte, List.any_eq_true]
+  refine ⟨s.length, by simp, ?_⟩
+  simp [globMatch]
+
+theorem globMatch_prefix_star (p : Text) (hp : p.contains 42 = false) (s : Text) :
+    globMatch (p ++ [42]) s = startsWith p s := by
+  induction p generalizing s with
+  | nil => simp [globMatch_star, startsWith]
+  | cons c t ih =>
+    have hc : c ≠ 42 := by intro e; subst e; simp at hp
+    have ht : t.contains 42 = false := by
+      simp only [List.contains_cons, Bool.or_eq_false_iff] at hp; exact hp.2
+    cases s with
+    | nil => simp [globMatch, hc, startsWith]
+    | cons d r =>
+      simp only [List.cons_append, globMatch, hc, ↓reduceIte, ih ht r, startsWith, List.length_cons, List.take_succ_cons]
+      by_cases hcd : c = d
+      · simp [hcd]
+      · have : ¬ d = c := fun e => hcd e.symm
+        have h1 : (c == d) = false := by simp [hcd]
+        have h2 : (d == c) = false := by simp [this]
+        rw [h1]
+        have : (d :: List.take t.length r == c :: t) = false := by
+          simp [this]
+        rw [this]; simp
+
+theorem startsWith_eq (p s : Text) (h : startsWith p s = true) : s = p ++ s.drop p.length := by
+  simp only [startsWith, beq_iff_eq] at h
+  conv => lhs; rw [← List.take_append_drop p.length s, h]
+
+theorem find_unique {α : Type} (l : List α) (p : α → Bool) (a : α) (ha : a ∈ l) (hp : p a = true)
+    (hu : ∀ x ∈ l, p x = true → x = a) : l.find? p = some a := by
+  induction l with
+  | nil => simp at ha
+  | cons x t ih =>
+    by_cases hx : p x = true
+    · have := hu x (by simp) hx; subst this; simp [List.find?_cons, hx]
+    · have hat : a ∈ t := by
+        rcases List.mem_cons.1 ha with h | h
+        · subst h; exact absurd hp hx
+        · exact h
+      simp only [List.find?_cons, hx]
+      exact ih hat (fun y hy => hu y (by simp [hy]))
+
+/-- which kinds the registry has -/
+theorem reg_kinds (e : EIEntry) (he : e ∈ easyId3Registry) :
+    eiGood e = true ∨ e = perfEntry ∨
+      e.key = pReplaygain ++ [42] ++ sGain ∨ e.key = pReplaygain ++ [42] ++ sPeak := by
+  have h1 : easyId3Registry.all (fun x => eiGood x || x == perfEntry ||
+      x.key == pReplaygain ++ [42] ++ sGain || x.key == pReplaygain ++ [42] ++ sPeak) = true := by decide +kernel
+  have := List.all_eq_true.1 h1 e he
+  simp only [Bool.or_eq_true, beq_iff_eq] at this
+  rcases this with ((h | h) | h) | h
+  · exact Or.inl h
+  · exact Or.inr (Or.inl h)
+  · exact Or.inr (Or.inr (Or.inl h))
+  · exact Or.inr (Or.inr (Or.inr h))
+
+/-- every `performer:<anything>` key goes to the `performer:*` entry -/
+theorem eiFind_performer (r : Text) : eiFind (pPerformer ++ r) = some perfEntry := by
+  unfold eiFind
+  cases h1 : easyId3Registry.find? (fun x => decide (x.key = pPerformer ++ r)) with
+  | some e =>
+    have hm := List.mem_of_find?_eq_some h1
+    have hk : e.key = pPerformer ++ r := by simpa using List.find?_some h1
+    have := perfPrefix_unique e hm (by rw [hk]; exact startsWith_append _ _)
+    simp [this]
+  | none =>
+    simp only
+    apply find_unique _ _ perfEntry perfEntry_mem
+    · show globMatch (pPerformer ++ [42]) (pPerformer ++ r) = true
+      rw [globMatch_prefix_star _ (by decide)]; exact startsWith_append _ _
+    · intro x hx hg
+      rcases reg_kinds x hx with h | h | h | h
+      · have hs := List.all_eq_true.1 eiReg_nostar_all x hx
+        simp only [h, Bool.not_true, Bool.false_or, Bool.not_eq_true'] at hs
+        rw [globMatch_nostar _ _ hs] at hg
+        have hk : x.key = pPerformer ++ r := by simpa using hg
+        exact perfPrefix_unique x hx (by rw [hk]; exact startsWith_append _ _)
+      · exact h
+      · exfalso; rw [h] at hg; simp [pReplaygain, pPerformer, globMatch] at hg
+      · exfalso; rw [h] at hg; simp [pReplaygain, pPerformer, globMatch] at hg
+
+/-- a key that goes to the `performer:*` entry starts with `performer:` -/
+theorem eiFind_perf_prefix (t : Text) (e : EIEntry) (h : eiFind t = some e) (hk : e.kind = .performer) :
+    e = perfEntry ∧ startsWith pPerformer t = true := by
+  unfold eiFind at h
+  cases h1 : easyId3Registry.find? (fun x => decide (x.key = t)) with
+  | some e1 =>
+    simp only [h1, Option.some.injEq] at h; subst h
+    have hm := List.mem_of_find?_eq_some h1
+    have hkey : e1.key = t := by simpa using List.find?_some h1
+    have := perf_unique e1 hm hk
+    refine ⟨this, ?_⟩
+    rw [← hkey, this]; decide
+  | none =>
+    simp only [h1] at h
+    have hm := List.mem_of_find?_eq_some h
+    have hg : globMatch e.key t = true := by
+      have := List.find?_some h
+      simpa using this
+    have := perf_unique e hm hk
+    refine ⟨this, ?_⟩
+    rw [this] at hg
+    rw [← globMatch_prefix_star pPerformer (by decide)]; exact hg
+
+theorem pyLower_drop (t : Text) (n : Nat) : (pyLower t).drop n = pyLower (t.drop n) := by
+  simp [pyLower, List.map_drop]
+
+theorem pyLower_append (a b : Text) : pyLower (a ++ b) = pyLower a ++ pyLower b := by
+  simp [pyLower]
+
+theorem roleOf_perf (r : Text) : roleOf (pPerformer ++ r) = r := by
+  simp [roleOf, pPerformer]
+
+/-! ### good entries, good pairs -/
 
 theorem eiGood_cases (e : EIEntry) (h : eiGood e = true) : eiPlain e = true ∨ e.kind = .website := by
   simp only [eiGood, Bool.or_eq_true, beq_iff_eq] at h; exact h
@@ -505,34 +627,6 @@ theorem eiGet_kt (s : Id3) (e : EIEntry) (k1 k2 : Text) (hp : eiGood e = true) :
   · unfold eiPlain at h
     cases hkd : e.kind <;> simp only [hkd] at h ⊢ <;> simp at h
   · simp only [h]
-
-theorem eiGoodKey_good (e : EIEntry) (he : e ∈ easyId3Registry) (hp : eiGood e = true) :
-    eiGoodKey (.str e.key) = true := by
-  simp [eiGoodKey, eiEntryOf_plain e he, hp]
-
-theorem normG_ok (k κ : PKey) (h : easyId3PolicyG.norm k = .ok κ) :
-    ∃ e kt, eiEntryOf k = some (e, kt) ∧ eiGoodKey k = true ∧ eiGood e = true ∧ e ∈ easyId3Registry ∧
-      κ = .str e.key := by
-  simp only [easyId3PolicyG, easyId3Policy] at h
-  cases hg : eiGoodKey k with
-  | false => simp [hg] at h
-  | true =>
-    simp only [hg, ↓reduceIte] at h
-    cases he : eiEntryOf k with
-    | none => simp [he] at h
-    | some p =>
-      obtain ⟨e, kt⟩ := p
-      simp only [he, Except.ok.injEq] at h
-      obtain ⟨hp, hm, _, _⟩ := eiEntryOf_good k e kt he hg
-      exact ⟨e, kt, rfl, rfl, hp, hm, by rw [← h, eiNormKey_good e kt hp]⟩
-
-theorem normG_good (e : EIEntry) (he : e ∈ easyId3Registry) (hp : eiGood e = true) :
-    easyId3PolicyG.norm (.str e.key) = .ok (.str e.key) := by
-  simp [easyId3PolicyG, easyId3Policy, eiGoodKey_good e he hp, eiEntryOf_plain e he, eiNormKey_good e _ hp]
-
-theorem getG_good (s : Id3) (e : EIEntry) (he : e ∈ easyId3Registry) (hp : eiGood e = true) :
-    easyId3ImplG.getitem s (.str e.key) = eiGet s e e.key := by
-  simp [easyId3ImplG, eiGoodKey_good e he hp, easyId3Get, eiEntryOf_plain e he]
 
 /-- under the invariant the getter of a good entry answers `KeyError` or a value -/
 theorem eiGet_good (s : Id3) (hs : EasyId3Inv s) (e : EIEntry) (he : e ∈ easyId3Registry) (hp : eiGood e = true)
@@ -554,16 +648,234 @@ theorem slot_hk (e : EIEntry) (he : e ∈ easyId3Registry) (hp : eiPlain e = tru
   | none => simp [hh] at this
   | some hk => simp [hh] at this; exact ⟨hk, rfl, this⟩
 
+
+theorem str_key_inj (e1 e2 : EIEntry) (h1 : e1 ∈ easyId3Registry) (h2 : e2 ∈ easyId3Registry) (h : e1.key = e2.key) :
+    e1 = e2 := inj_of_nodup_map (·.key) _ eiReg_keys_nodup e1 e2 h1 h2 h
+
+/-- a (registry entry, key as typed) pair of the proved part: a single-frame entry or `website`
+with any spelling of its key, or `performer:*` with a role that `str.lower()` leaves alone -/
+def GoodPair (e : EIEntry) (kt : Text) : Prop :=
+  e ∈ easyId3Registry ∧ (eiGood e = true ∨ (e = perfEntry ∧ pyLower (roleOf kt) = roleOf kt))
+
+theorem perf_not_good : eiGood perfEntry = false := by decide
+
+theorem eiNormKey_perf (kt : Text) : eiNormKey perfEntry kt = pPerformer ++ roleOf kt := rfl
+
+/-- the entry of a good registered key -/
+theorem eiEntryOf_goodP (k : PKey) (e : EIEntry) (kt : Text) (h : eiEntryOf k = some (e, kt)) (hg : eiGoodKey k = true) :
+    k = .str kt ∧ GoodPair e kt := by
+  cases k with
+  | str t =>
+    simp only [eiEntryOf, Option.map_eq_some_iff, Prod.mk.injEq] at h
+    obtain ⟨e', h1, h2, h3⟩ := h
+    subst h2; subst h3
+    refine ⟨rfl, ?_⟩
+    simp only [eiGoodKey, eiEntryOf, h1, Option.map_some, Bool.or_eq_true, Bool.and_eq_true, beq_iff_eq] at hg
+    rcases hg with hg | ⟨hk, hr⟩
+    · exact ⟨(eiFind_plain_key _ _ h1 hg).1, Or.inl hg⟩
+    · obtain ⟨he, _⟩ := eiFind_perf_prefix _ _ h1 hk
+      subst he
+      exact ⟨perfEntry_mem, Or.inr ⟨rfl, hr⟩⟩
+  | _ => simp [eiEntryOf] at h
+
+theorem pair_entry (e : EIEntry) (kt : Text) (h : GoodPair e kt) :
+    eiEntryOf (.str (eiNormKey e kt)) = some (e, eiNormKey e kt) := by
+  rcases h.2 with hg | ⟨rfl, hr⟩
+  · rw [eiNormKey_good e kt hg]; exact eiEntryOf_plain e h.1
+  · have hl : pyLower (pPerformer ++ roleOf kt) = pPerformer ++ roleOf kt := by
+      rw [pyLower_append, hr]; congr 1
+    simp [eiEntryOf, eiNormKey_perf, hl, eiFind_performer]
+
+theorem pair_norm_pair (e : EIEntry) (kt : Text) (h : GoodPair e kt) : GoodPair e (eiNormKey e kt) := by
+  refine ⟨h.1, ?_⟩
+  rcases h.2 with hg | ⟨rfl, hr⟩
+  · exact Or.inl hg
+  · exact Or.inr ⟨rfl, by rw [eiNormKey_perf, roleOf_perf]; exact hr⟩
+
+theorem pair_norm_idem (e : EIEntry) (kt : Text) (h : GoodPair e kt) :
+    eiNormKey e (eiNormKey e kt) = eiNormKey e kt := by
+  rcases h.2 with hg | ⟨rfl, hr⟩
+  · rw [eiNormKey_good e _ hg, eiNormKey_good e _ hg]
+  · rw [eiNormKey_perf, eiNormKey_perf, roleOf_perf]
+
+theorem pair_goodKey (e : EIEntry) (kt : Text) (h : GoodPair e kt) : eiGoodKey (.str (eiNormKey e kt)) = true := by
+  have hp := pair_norm_pair e kt h
+  simp only [eiGoodKey, pair_entry e kt h, Bool.or_eq_true, Bool.and_eq_true, beq_iff_eq]
+  rcases hp.2 with hg | ⟨rfl, hr⟩
+  · exact Or.inl hg
+  · exact Or.inr ⟨rfl, hr⟩
+
+theorem eiGet_role (s : Id3) (k1 k2 : Text) (h : roleOf k1 = roleOf k2) :
+    eiGet s perfEntry k1 = eiGet s perfEntry k2 := by
+  unfold eiGet; simp only [perfEntry, h]
+
+theorem pair_get_norm (s : Id3) (e : EIEntry) (kt : Text) (h : GoodPair e kt) :
+    eiGet s e kt = eiGet s e (eiNormKey e kt) := by
+  rcases h.2 with hg | ⟨rfl, hr⟩
+  · exact eiGet_kt s e _ _ hg
+  · exact eiGet_role s _ _ (by rw [eiNormKey_perf, roleOf_perf])
+
+/-- distinct normal keys: distinct entries, or two roles of `performer:*` -/
+theorem pair_key_inj (e e2 : EIEntry) (kt kt2 : Text) (h : GoodPair e kt) (h2 : GoodPair e2 kt2)
+    (hk : eiNormKey e kt = eiNormKey e2 kt2) : e = e2 ∧ (e = perfEntry → roleOf kt = roleOf kt2) := by
+  rcases h.2 with hg | ⟨rfl, hr⟩ <;> rcases h2.2 with hg2 | ⟨rfl, hr2⟩
+  · rw [eiNormKey_good e kt hg, eiNormKey_good e2 kt2 hg2] at hk
+    have := str_key_inj e e2 h.1 h2.1 hk
+    subst this
+    exact ⟨rfl, fun hp => by rw [hp, perf_not_good] at hg; cases hg⟩
+  · exfalso
+    rw [eiNormKey_good e kt hg, eiNormKey_perf] at hk
+    have := perfPrefix_unique e h.1 (by rw [hk]; exact startsWith_append _ _)
+    rw [this, perf_not_good] at hg; cases hg
+  · exfalso
+    rw [eiNormKey_good e2 kt2 hg2, eiNormKey_perf] at hk
+    have := perfPrefix_unique e2 h2.1 (by rw [← hk]; exact startsWith_append _ _)
+    rw [this, perf_not_good] at hg2; cases hg2
+  · refine ⟨rfl, fun _ => ?_⟩
+    rw [eiNormKey_perf, eiNormKey_perf] at hk
+    exact List.append_cancel_left hk
+
+theorem normG_ok (k κ : PKey) (h : easyId3PolicyG.norm k = .ok κ) :
+    ∃ e kt, eiEntryOf k = some (e, kt) ∧ eiGoodKey k = true ∧ GoodPair e kt ∧ κ = .str (eiNormKey e kt) := by
+  simp only [easyId3PolicyG, easyId3Policy] at h
+  cases hg : eiGoodKey k with
+  | false => simp [hg] at h
+  | true =>
+    simp only [hg, ↓reduceIte] at h
+    cases he : eiEntryOf k with
+    | none => simp [he] at h
+    | some p =>
+      obtain ⟨e, kt⟩ := p
+      simp only [he, Except.ok.injEq] at h
+      exact ⟨e, kt, rfl, rfl, (eiEntryOf_goodP k e kt he hg).2, h.symm⟩
+
+theorem normG_pair (e : EIEntry) (kt : Text) (h : GoodPair e kt) :
+    easyId3PolicyG.norm (.str (eiNormKey e kt)) = .ok (.str (eiNormKey e kt)) := by
+  simp [easyId3PolicyG, easyId3Policy, pair_goodKey e kt h, pair_entry e kt h, pair_norm_idem e kt h]
+
+theorem getG_pair (s : Id3) (e : EIEntry) (kt : Text) (h : GoodPair e kt) :
+    easyId3ImplG.getitem s (.str (eiNormKey e kt)) = eiGet s e kt := by
+  simp only [easyId3ImplG, pair_goodKey e kt h, ↓reduceIte, easyId3Get, pair_entry e kt h]
+  exact (pair_get_norm s e kt h).symm
+
+/-! ### `performer:<role>`: all roles in one TMCL frame -/
+
+abbrev People := List (Text × Text)
+
+def rolesStable (p : People) : Bool := p.all (fun x => pyLower x.1 == x.1)
+
+/-- under the invariant TMCL is absent or a TMCL frame with stable roles -/
+theorem tmcl_shape (s : Id3) (hs : EasyId3Inv s) :
+    lookup kTMCL s = none ∨ ∃ enc p, lookup kTMCL s = some (.tmcl enc p) ∧ rolesStable p = true := by
+  cases hl : lookup kTMCL s with
+  | none => left; rfl
+  | some f =>
+    right
+    have hok := inv_lookup s hs kTMCL f hl
+    have hc : hkClass kTMCL = .tmcl := by decide
+    cases f <;> simp [frameOK, hc] at hok
+    exact ⟨_, _, rfl, by simpa [rolesStable] using hok⟩
+
+/-- the people of the TMCL frame (none: no frame) -/
+def peopleD (s : Id3) : People := (peopleOf s).getD []
+
+theorem people_filter_other (p new : People) (r r2 : Text) (hne : r2 ≠ r) (hnew : ∀ x ∈ new, x.1 = r) :
+    (p.filter (fun x => x.1 != r) ++ new).filter (fun x => x.1 == r2) = p.filter (fun x => x.1 == r2) := by
+  rw [List.filter_append, List.filter_filter]
+  have h1 : new.filter (fun x => x.1 == r2) = [] := by
+    rw [List.filter_eq_nil_iff]; intro x hx
+    have : ¬ r = r2 := fun h => hne h.symm
+    simp [hnew x hx, this]
+  rw [h1, List.append_nil]
+  apply List.filter_congr
+  intro x _
+  by_cases h : x.1 = r2
+  · simp [h, hne]
+  · simp [h]
+
+theorem people_filter_same (p : People) (r : Text) (l : List Text) :
+    ((p.filter (fun x => x.1 != r) ++ l.map (fun x => (r, x))).filter (fun x => x.1 == r)).map Prod.snd = l := by
+  rw [List.filter_append, List.filter_filter]
+  have h1 : p.filter (fun x => x.1 == r && x.1 != r) = [] := by
+    rw [List.filter_eq_nil_iff]; intro x _; by_cases h : x.1 = r <;> simp [h]
+  have h2 : (l.map (fun x => (r, x))).filter (fun x => x.1 == r) = l.map (fun x => (r, x)) := by
+    rw [List.filter_eq_self]; intro x hx; obtain ⟨a, _, rfl⟩ := List.mem_map.1 hx; simp
+  rw [h1, h2]; simp [List.map_map, Function.comp_def]
+
+theorem people_rest_filter (p : People) (r r2 : Text) (hne : r2 ≠ r) :
+    (p.filter (fun x => x.1 != r)).filter (fun x => x.1 == r2) = p.filter (fun x => x.1 == r2) := by
+  rw [List.filter_filter]
+  apply List.filter_congr
+  intro x _
+  by_cases h : x.1 = r2
+  · simp [h, hne]
+  · simp [h]
+
+theorem people_rest_same (p : People) (r : Text) :
+    (p.filter (fun x => x.1 != r)).filter (fun x => x.1 == r) = [] := by
+  rw [List.filter_filter, List.filter_eq_nil_iff]; intro x _; by_cases h : x.1 = r <;> simp [h]
+
+theorem people_rest_eq_iff (p : People) (r : Text) :
+    p.filter (fun x => x.1 != r) = p ↔ p.filter (fun x => x.1 == r) = [] := by
+  rw [List.filter_eq_self, List.filter_eq_nil_iff]
+  constructor
+  · intro h x hx; have := h x hx; simpa using this
+  · intro h x hx; have := h x hx; simpa using this
+
+theorem eiGet_perf (s : Id3) (kt : Text) : eiGet s perfEntry kt = perfRead s (roleOf kt) := by
+  unfold eiGet; simp only [perfEntry]
+
+theorem perfRead_none (s : Id3) (h : lookup kTMCL s = none) (r : Text) : perfRead s r = .error .key := by
+  unfold perfRead; rw [h]
+
+theorem perfRead_nil (s : Id3) (enc : Nat) (p : People) (h : lookup kTMCL s = some (.tmcl enc p)) (r : Text)
+    (hf : (p.filter (fun x => x.1 == r)).map Prod.snd = []) : perfRead s r = .error .key := by
+  unfold perfRead; simp only [h, hf]
+
+theorem perfRead_cons (s : Id3) (enc : Nat) (p : People) (h : lookup kTMCL s = some (.tmcl enc p)) (r : Text)
+    (a : Text) (t : List Text) (hf : (p.filter (fun x => x.1 == r)).map Prod.snd = a :: t) :
+    perfRead s r = .ok (textsVal (a :: t)) := by
+  unfold perfRead; simp only [h, hf]
+
+theorem perfRead_congr (s1 s2 : Id3) (enc1 enc2 : Nat) (p1 p2 : People) (h1 : lookup kTMCL s1 = some (.tmcl enc1 p1))
+    (h2 : lookup kTMCL s2 = some (.tmcl enc2 p2)) (r : Text)
+    (hf : p1.filter (fun x => x.1 == r) = p2.filter (fun x => x.1 == r)) : perfRead s1 r = perfRead s2 r := by
+  cases hq : (p2.filter (fun x => x.1 == r)).map Prod.snd with
+  | nil => rw [perfRead_nil s1 enc1 p1 h1 r (by rw [hf]; exact hq), perfRead_nil s2 enc2 p2 h2 r hq]
+  | cons a t => rw [perfRead_cons s1 enc1 p1 h1 r a t (by rw [hf]; exact hq), perfRead_cons s2 enc2 p2 h2 r a t hq]
+
+/-- under the invariant the performer getter answers `KeyError` or a value -/
+theorem perfRead_good (s : Id3) (hs : EasyId3Inv s) (r : Text) : perfRead s r = .error .key ∨ ∃ v, perfRead s r = .ok v := by
+  rcases tmcl_shape s hs with h | ⟨enc, p, h, _⟩
+  · left; exact perfRead_none s h r
+  · cases hq : (p.filter (fun x => x.1 == r)).map Prod.snd with
+    | nil => left; exact perfRead_nil s enc p h r hq
+    | cons a t => right; exact ⟨_, perfRead_cons s enc p h r a t hq⟩
+
+theorem kTMCL_not_woar : startsWith pWOAR kTMCL = false := by decide
+
+theorem slot_hk_ne_tmcl (e : EIEntry) (he : e ∈ easyId3Registry) (hp : eiPlain e = true) (hk : Text)
+    (h : hkOf e = some hk) : hk ≠ kTMCL := by
+  have h1 : easyId3Registry.all (fun x => !eiPlain x || hkOf x != some kTMCL) = true := by decide +kernel
+  have := List.all_eq_true.1 h1 e he
+  simp only [hp, Bool.not_true, Bool.false_or, bne_iff_ne, ne_eq] at this
+  intro heq; exact this (heq ▸ h)
+
+theorem inv_tmcl_insert (s : Id3) (hs : EasyId3Inv s) (enc : Nat) (p : People) (hp : rolesStable p = true) :
+    EasyId3Inv (insert kTMCL (.tmcl enc p) s) := by
+  refine ⟨nodup_insert _ _ _ hs.1, ?_⟩
+  intro q hq
+  rcases mem_insert_cases _ _ _ _ hq with h | h
+  · subst h
+    have hc : hkClass kTMCL = .tmcl := by decide
+    simpa [frameOK, hc, rolesStable] using hp
+  · exact hs.2 q h
+
 theorem inv_lookup_none (s : Id3) (hs : EasyId3Inv s) (hk : Text) (hc : ∀ f, frameOK hk f = false) :
     lookup hk s = none := by
   cases hl : lookup hk s with
   | none => rfl
   | some f => have := inv_lookup s hs hk f hl; rw [hc f] at this; cases this
-
-theorem inv_no_tmcl (s : Id3) (hs : EasyId3Inv s) : lookup kTMCL s = none :=
-  inv_lookup_none s hs _ (fun f => by
-    have hc : hkClass kTMCL = .tmcl := by decide
-    cases f <;> simp [frameOK, hc])
 
 theorem inv_no_rva2star (s : Id3) (hs : EasyId3Inv s) : lookup (pRVA2 ++ [42]) s = none :=
   inv_lookup_none s hs _ (fun f => by
@@ -572,9 +884,6 @@ theorem inv_no_rva2star (s : Id3) (hs : EasyId3Inv s) : lookup (pRVA2 ++ [42]) s
 
 theorem frameOK_not_rva2 (hk : Text) (f : IFrame) (h : frameOK hk f = true) : ∀ d c g p, f ≠ .rva2 d c g p := by
   intro d c g p e; subst e; unfold frameOK at h; cases hkClass hk <;> simp at h
-
-theorem performerKeys_inv (s : Id3) (hs : EasyId3Inv s) : performerKeys s = [] := by
-  simp [performerKeys, peopleOf, inv_no_tmcl s hs]
 
 theorem gainKeys_inv (s : Id3) (hs : EasyId3Inv s) : gainKeys s = [] := by
   unfold gainKeys
@@ -585,70 +894,6 @@ theorem gainKeys_inv (s : Id3) (hs : EasyId3Inv s) : gainKeys s = [] := by
   have := frameOK_not_rva2 p.1 p.2 (hs.2 p hm)
   cases hf : p.2 <;> simp [hf]
   exact absurd hf (this _ _ _ _)
-
-/-- under the invariant, what one key of `Get` contributes to `keys()` -/
-theorem eiKeysOf_inv (s : Id3) (hs : EasyId3Inv s) (e : EIEntry) (he : e ∈ easyId3Registry) :
-    eiKeysOf s e = if eiGood e && (eiGet s e e.key).toOption.isSome then [e.key] else [] := by
-  unfold eiKeysOf
-  cases hkd : e.kind with
-  | performer => simp [eiGood, eiPlain, hkd, performerKeys_inv s hs]
-  | gain => simp [eiGood, eiPlain, hkd, gainKeys_inv s hs]
-  | peak =>
-    have hkey : e.key = pReplaygain ++ [42] ++ sPeak := by
-      have : easyId3Registry.all (fun e => !(e.kind == .peak) || e.key == pReplaygain ++ [42] ++ sPeak) = true := by
-        decide +kernel
-      have := List.all_eq_true.1 this e he
-      simpa [hkd] using this
-    have hg : easyId3Get s (.str e.key) = .error .key := by
-      simp only [easyId3Get, eiEntryOf_plain e he, eiGet, hkd]
-      have hd : descOf e.key = [42] := by rw [hkey]; decide
-      rw [hd, inv_no_rva2star s hs]
-    simp [eiGood, eiPlain, hkd, hg]
-  | _ =>
-    have hp : eiGood e = true := by simp [eiGood, eiPlain, hkd]
-    have hg : easyId3Get s (.str e.key) = eiGet s e e.key := by simp [easyId3Get, eiEntryOf_plain e he]
-    rw [hg]
-    rcases eiGet_good s hs e he hp e.key with h1 | ⟨v, h1⟩ <;> simp [hp, h1, Except.toOption]
-
-def eiShown (s : Id3) (e : EIEntry) : Bool := eiGood e && (eiGet s e e.key).toOption.isSome
-
-theorem flatten_singletons {α β : Type} (l : List α) (q : α → Bool) (g : α → β) (f : α → List β)
-    (h : ∀ a ∈ l, f a = if q a then [g a] else []) : (l.map f).flatten = (l.filter q).map g := by
-  induction l with
-  | nil => rfl
-  | cons a t ih =>
-    have ha := h a (by simp)
-    have := ih (fun x hx => h x (by simp [hx]))
-    by_cases hq : q a <;> simp [List.filter_cons, hq, ha, this]
-
-theorem easyId3Keys_inv (s : Id3) (hs : EasyId3Inv s) :
-    easyId3Keys s = (easyId3Registry.filter (eiShown s)).map (fun e => PKey.str e.key) := by
-  unfold easyId3Keys
-  rw [flatten_singletons easyId3Registry (eiShown s) (·.key) (eiKeysOf s) (fun e he => eiKeysOf_inv s hs e he)]
-  simp [List.map_map]
-
-theorem str_key_inj (e1 e2 : EIEntry) (h1 : e1 ∈ easyId3Registry) (h2 : e2 ∈ easyId3Registry) (h : e1.key = e2.key) :
-    e1 = e2 := inj_of_nodup_map (·.key) _ eiReg_keys_nodup e1 e2 h1 h2 h
-
-theorem mem_keys_inv (s : Id3) (hs : EasyId3Inv s) (e : EIEntry) (he : e ∈ easyId3Registry) :
-    PKey.str e.key ∈ easyId3Keys s ↔ eiShown s e = true := by
-  rw [easyId3Keys_inv s hs, List.mem_map]
-  constructor
-  · rintro ⟨e', hm, hk⟩
-    have hm' := List.mem_filter.1 hm
-    injection hk with hk
-    have := str_key_inj e' e hm'.1 he hk
-    subst this; exact hm'.2
-  · intro h; exact ⟨e, List.mem_filter.2 ⟨he, h⟩, rfl⟩
-
-theorem keys_nodup_inv (s : Id3) (hs : EasyId3Inv s) : (easyId3Keys s).Nodup := by
-  rw [easyId3Keys_inv s hs]
-  have h1 : ((easyId3Registry.filter (eiShown s)).map (·.key)).Nodup :=
-    List.Nodup.sublist (List.Sublist.map _ List.filter_sublist) eiReg_keys_nodup
-  have : (easyId3Registry.filter (eiShown s)).map (fun e => PKey.str e.key) =
-      ((easyId3Registry.filter (eiShown s)).map (·.key)).map PKey.str := by simp [List.map_map]
-  rw [this]
-  exact List.Pairwise.map PKey.str (fun a b h e => h (by injection e)) h1
 
 theorem inv_insert (s : Id3) (hs : EasyId3Inv s) (hk : Text) (f : IFrame) (hf : frameOK hk f = true) :
     EasyId3Inv (insert hk f s) := by
@@ -678,7 +923,7 @@ theorem ei_set_effect (e : EIEntry) (he : e ∈ easyId3Registry) (hg : eiGood e 
     (∃ err, ∀ s0, eiSet s0 e kt v = (.error err, s0)) ∨
     (∃ T : Id3 → Id3, (∀ s0, eiSet s0 e kt v = (.ok (), T s0)) ∧ (∀ s0, EasyId3Inv s0 → EasyId3Inv (T s0)) ∧
       (∀ s0 e2 k2, e2 ∈ easyId3Registry → eiGood e2 = true → e2 ≠ e → eiGet (T s0) e2 k2 = eiGet s0 e2 k2) ∧
-      (∀ s0, eiGet (T s0) e kt = eiGet (T []) e kt)) := by
+      (∀ s0, eiGet (T s0) e kt = eiGet (T []) e kt) ∧ (∀ s0, lookup kTMCL (T s0) = lookup kTMCL s0)) := by
   rcases eiGood_cases e hg with hp | hw
   · obtain ⟨hk, hhk, hnw⟩ := slot_hk e he hp
     cases hf : slotFrame e v with
@@ -688,7 +933,7 @@ theorem ei_set_effect (e : EIEntry) (he : e ∈ easyId3Registry) (hg : eiGood e 
       right
       have hok := slotFrame_ok e he v f hk hhk hf
       refine ⟨fun s0 => insert hk f s0, fun s0 => by rw [eiSet_slot s0 e kt v hk hhk hp, hf],
-        fun s0 hs0 => inv_insert s0 hs0 hk f hok, ?_, ?_⟩
+        fun s0 hs0 => inv_insert s0 hs0 hk f hok, ?_, ?_, ?_⟩
       · intro s0 e2 k2 he2 hg2 hne
         apply eiGet_frame _ _ e2 he2 hg2 k2
         · intro hk2 h2
@@ -701,6 +946,9 @@ theorem ei_set_effect (e : EIEntry) (he : e ∈ easyId3Registry) (hg : eiGood e 
         · intro _; exact getall_insert_other pWOAR hk f hnw s0
       · intro s0
         exact eiGet_congr _ _ e kt hk hhk (by rw [lookup_insert, lookup_insert]; simp)
+      · intro s0
+        have := slot_hk_ne_tmcl e he hp hk hhk
+        rw [lookup_insert]; simp [this]
   · -- website
     unfold eiSet
     cases hi : eiItems v with
@@ -711,7 +959,7 @@ theorem ei_set_effect (e : EIEntry) (he : e ∈ easyId3Registry) (hg : eiGood e 
       | some l =>
         right
         refine ⟨fun s0 => woarPut l (delallPrefix pWOAR s0), fun s0 => by simp only [hw, ht],
-          fun s0 hs0 => inv_website_set l s0 hs0, ?_, ?_⟩
+          fun s0 hs0 => inv_website_set l s0 hs0, ?_, ?_, ?_⟩
         · intro s0 e2 k2 he2 hg2 hne
           apply eiGet_frame _ _ e2 he2 hg2 k2
           · intro hk2 h2
@@ -732,20 +980,23 @@ theorem ei_set_effect (e : EIEntry) (he : e ∈ easyId3Registry) (hg : eiGood e 
             exact str_key_inj e2 e he2 he (b.trans a.symm)
         · intro s0
           exact eiGet_web_congr _ _ e kt hw (getall_website_set l s0)
+        · intro s0
+          rw [lookup_woarPut_other kTMCL kTMCL_not_woar, lookup_delall]; simp [kTMCL_not_woar]
 
 /-- what the deleter of a good entry does -/
 theorem ei_del_effect (s : Id3) (hs : EasyId3Inv s) (e : EIEntry) (he : e ∈ easyId3Registry) (hg : eiGood e = true)
     (kt : Text) :
     (eiGet s e kt = .error .key → eiDel s e kt = .error .key) ∧
     (∀ v, eiGet s e kt = .ok v → ∃ s', eiDel s e kt = .ok s' ∧ EasyId3Inv s' ∧ eiGet s' e kt = .error .key ∧
-      ∀ e2 k2, e2 ∈ easyId3Registry → eiGood e2 = true → e2 ≠ e → eiGet s' e2 k2 = eiGet s e2 k2) := by
+      (∀ e2 k2, e2 ∈ easyId3Registry → eiGood e2 = true → e2 ≠ e → eiGet s' e2 k2 = eiGet s e2 k2) ∧
+      lookup kTMCL s' = lookup kTMCL s) := by
   rcases eiGood_cases e hg with hp | hw
   · obtain ⟨hk, hhk, hnw⟩ := slot_hk e he hp
     rw [eiDel_slot s e kt hk hhk hp]
     cases hl : lookup hk s with
     | none => exact ⟨fun _ => rfl, fun v hv => by rw [eiGet_none s e kt hk hhk hl] at hv; cases hv⟩
     | some f =>
-      refine ⟨fun h => ?_, fun v hv => ⟨erase hk s, rfl, inv_erase s hs hk, ?_, ?_⟩⟩
+      refine ⟨fun h => ?_, fun v hv => ⟨erase hk s, rfl, inv_erase s hs hk, ?_, ?_, lookup_erase_ne _ _ _ (slot_hk_ne_tmcl e he hp hk hhk)⟩⟩
       · obtain ⟨v, hv⟩ := eiGet_some s hs e he hp kt hk f hhk hl
         rw [hv] at h; cases h
       · exact eiGet_none _ e kt hk hhk (by rw [lookup_erase _ _ _ hs.1]; simp)
@@ -768,7 +1019,7 @@ theorem ei_del_effect (s : Id3) (hs : EasyId3Inv s) (e : EIEntry) (he : e ∈ ea
     | cons p t =>
       have hdel : eiDel s e kt = .ok (delallPrefix pWOAR s) := by unfold eiDel; simp only [hw, hga]
       rw [hdel]
-      refine ⟨fun h => ?_, fun v hv => ⟨delallPrefix pWOAR s, rfl, inv_filter s hs _, ?_, ?_⟩⟩
+      refine ⟨fun h => ?_, fun v hv => ⟨delallPrefix pWOAR s, rfl, inv_filter s hs _, ?_, ?_, by rw [lookup_delall]; simp [kTMCL_not_woar]⟩⟩
       · exfalso
         cases hfm : (getallPrefix pWOAR s).filterMap (fun p => woarUrl p.2) with
         | nil => rw [(web_urls_nil s hs).1 hfm] at hga; cases hga
@@ -793,36 +1044,431 @@ theorem ei_del_effect (s : Id3) (hs : EasyId3Inv s) (e : EIEntry) (he : e ∈ ea
           simp [hw, hw2] at a b
           exact str_key_inj e2 e he2 he (b.trans a.symm)
 
+
+theorem perfRead_lookup (s1 s2 : Id3) (r : Text) (h : lookup kTMCL s1 = lookup kTMCL s2) :
+    perfRead s1 r = perfRead s2 r := by
+  unfold perfRead; rw [h]
+
+theorem eiSet_perf_none (s : Id3) (kt : Text) (v : PVal) (hi : eiItems v = none) :
+    eiSet s perfEntry kt v = (.error .notImplemented, s) := by
+  unfold eiSet; simp only [hi]
+
+theorem eiSet_perf_notexts (s : Id3) (kt : Text) (v : PVal) (items : List Item) (hi : eiItems v = some items)
+    (ht : eiTexts items = none) : eiSet s perfEntry kt v = (.error .notImplemented, s) := by
+  unfold eiSet; simp only [hi, perfEntry, ht]
+
+theorem eiSet_perf_some (s : Id3) (kt : Text) (v : PVal) (items : List Item) (l : List Text)
+    (hi : eiItems v = some items) (ht : eiTexts items = some l) :
+    eiSet s perfEntry kt v = perfSet s (roleOf kt) l := by
+  unfold eiSet; simp only [hi, perfEntry, ht]
+
+theorem eiDel_perf (s : Id3) (kt : Text) : eiDel s perfEntry kt = perfDel s (roleOf kt) := by
+  unfold eiDel; simp only [perfEntry]
+
+/-- the people after `performer_set` -/
+def perfNew (s : Id3) (r : Text) (l : List Text) : People :=
+  (peopleD s).filter (fun p => p.1 != r) ++ l.map (fun x => (r, x))
+
+theorem perfSet_inv (s : Id3) (hs : EasyId3Inv s) (r : Text) (l : List Text) :
+    perfSet s r l = (.ok (), insert kTMCL (.tmcl 3 (perfNew s r l)) s) := by
+  unfold perfSet perfNew peopleD peopleOf
+  rcases tmcl_shape s hs with h | ⟨enc, p, h, _⟩
+  · simp [h]
+  · simp [h]
+
+theorem peopleD_stable (s : Id3) (hs : EasyId3Inv s) : rolesStable (peopleD s) = true := by
+  unfold peopleD peopleOf
+  rcases tmcl_shape s hs with h | ⟨enc, p, h, hp⟩
+  · simp [h, rolesStable]
+  · simp [h, hp]
+
+theorem perfNew_stable (s : Id3) (hs : EasyId3Inv s) (r : Text) (hr : pyLower r = r) (l : List Text) :
+    rolesStable (perfNew s r l) = true := by
+  have h0 := peopleD_stable s hs
+  simp only [rolesStable, List.all_eq_true, beq_iff_eq] at h0 ⊢
+  intro x hx
+  rcases List.mem_append.1 hx with h | h
+  · exact h0 x (List.mem_filter.1 h).1
+  · obtain ⟨a, _, rfl⟩ := List.mem_map.1 h; exact hr
+
+theorem perfRead_after_set_other (s : Id3) (hs : EasyId3Inv s) (r r2 : Text) (l : List Text) (hne : r2 ≠ r) :
+    perfRead (insert kTMCL (.tmcl 3 (perfNew s r l)) s) r2 = perfRead s r2 := by
+  have hl : lookup kTMCL (insert kTMCL (.tmcl 3 (perfNew s r l)) s) = some (.tmcl 3 (perfNew s r l)) := by
+    rw [lookup_insert]; simp
+  have hf := people_filter_other (peopleD s) (l.map (fun x => (r, x))) r r2 hne (fun x hx => by
+    obtain ⟨a, _, rfl⟩ := List.mem_map.1 hx; rfl)
+  rcases tmcl_shape s hs with h | ⟨enc, p, h, _⟩
+  · rw [perfRead_none s h]
+    apply perfRead_nil _ 3 _ hl
+    have : peopleD s = [] := by simp [peopleD, peopleOf, h]
+    unfold perfNew; rw [hf, this]; rfl
+  · apply perfRead_congr _ _ 3 enc _ p hl h
+    have : peopleD s = p := by simp [peopleD, peopleOf, h]
+    unfold perfNew; rw [hf, this]
+
+theorem perfRead_after_set_same (s : Id3) (r : Text) (l : List Text) :
+    perfRead (insert kTMCL (.tmcl 3 (perfNew s r l)) s) r =
+      perfRead (insert kTMCL (.tmcl 3 (perfNew [] r l)) []) r := by
+  have hl : ∀ s0 : Id3, lookup kTMCL (insert kTMCL (.tmcl 3 (perfNew s0 r l)) s0) = some (.tmcl 3 (perfNew s0 r l)) := by
+    intro s0; rw [lookup_insert]; simp
+  have hs : ∀ s0 : Id3, ((perfNew s0 r l).filter (fun x => x.1 == r)).map Prod.snd = l :=
+    fun s0 => people_filter_same (peopleD s0) r l
+  cases l with
+  | nil => rw [perfRead_nil _ 3 _ (hl s) r (hs s), perfRead_nil _ 3 _ (hl []) r (hs [])]
+  | cons a t => rw [perfRead_cons _ 3 _ (hl s) r a t (hs s), perfRead_cons _ 3 _ (hl []) r a t (hs [])]
+
+/-- reading of a good pair after a change that leaves its own frame(s) alone -/
+theorem pair_get_frame (s s' : Id3) (e2 : EIEntry) (t2 : Text) (h2 : GoodPair e2 t2)
+    (hslot : ∀ hk, eiPlain e2 = true → hkOf e2 = some hk → lookup hk s' = lookup hk s)
+    (hweb : e2.kind = .website → getallPrefix pWOAR s' = getallPrefix pWOAR s)
+    (hperf : e2 = perfEntry → perfRead s' (roleOf t2) = perfRead s (roleOf t2)) :
+    eiGet s' e2 t2 = eiGet s e2 t2 := by
+  rcases h2.2 with hg | ⟨rfl, _⟩
+  · apply eiGet_frame _ _ e2 h2.1 hg t2
+    · intro hk hhk
+      have hp2 : eiPlain e2 = true := by
+        rcases eiGood_cases e2 hg with h | h
+        · exact h
+        · simp [hkOf, h] at hhk
+      exact hslot hk hp2 hhk
+    · exact hweb
+  · rw [eiGet_perf, eiGet_perf]; exact hperf rfl
+
+theorem pair_set_effect (e : EIEntry) (kt : Text) (h : GoodPair e kt) (v : PVal) :
+    (∃ err, ∀ s0, EasyId3Inv s0 → eiSet s0 e kt v = (.error err, s0)) ∨
+    (∃ T : Id3 → Id3, (∀ s0, EasyId3Inv s0 → eiSet s0 e kt v = (.ok (), T s0)) ∧
+      (∀ s0, EasyId3Inv s0 → EasyId3Inv (T s0)) ∧
+      (∀ s0 e2 t2, EasyId3Inv s0 → GoodPair e2 t2 → eiNormKey e2 t2 ≠ eiNormKey e kt →
+        eiGet (T s0) e2 t2 = eiGet s0 e2 t2) ∧
+      (∀ s0, EasyId3Inv s0 → eiGet (T s0) e kt = eiGet (T []) e kt)) := by
+  rcases h.2 with hg | ⟨rfl, hr⟩
+  · rcases ei_set_effect e h.1 hg kt v with ⟨err, h1⟩ | ⟨T, h1, h2, h3, h4, h5⟩
+    · left; exact ⟨err, fun s0 _ => h1 s0⟩
+    · right
+      refine ⟨T, fun s0 _ => h1 s0, h2, ?_, fun s0 _ => h4 s0⟩
+      intro s0 e2 t2 hs0 hp2 hne
+      rcases hp2.2 with hg2 | ⟨rfl, _⟩
+      · apply h3 s0 e2 t2 hp2.1 hg2
+        intro heq; subst heq
+        exact hne (by rw [eiNormKey_good e2 t2 hg2, eiNormKey_good e2 kt hg])
+      · rw [eiGet_perf, eiGet_perf]; exact perfRead_lookup _ _ _ (h5 s0)
+  · cases hi : eiItems v with
+    | none => left; exact ⟨.notImplemented, fun s0 _ => eiSet_perf_none s0 kt v hi⟩
+    | some items =>
+      cases ht : eiTexts items with
+      | none => left; exact ⟨.notImplemented, fun s0 _ => eiSet_perf_notexts s0 kt v items hi ht⟩
+      | some l =>
+        right
+        refine ⟨fun s0 => insert kTMCL (.tmcl 3 (perfNew s0 (roleOf kt) l)) s0, ?_, ?_, ?_, ?_⟩
+        · intro s0 hs0; rw [eiSet_perf_some s0 kt v items l hi ht, perfSet_inv s0 hs0]
+        · intro s0 hs0; exact inv_tmcl_insert s0 hs0 3 _ (perfNew_stable s0 hs0 _ hr l)
+        · intro s0 e2 t2 hs0 hp2 hne
+          apply pair_get_frame _ _ e2 t2 hp2
+          · intro hk hp hhk
+            have := slot_hk_ne_tmcl e2 hp2.1 hp hk hhk
+            have hne' : ¬ kTMCL = hk := fun h => this h.symm
+            rw [lookup_insert]; simp [hne']
+          · intro _; exact getall_insert_other pWOAR kTMCL _ kTMCL_not_woar s0
+          · intro he2; subst he2
+            apply perfRead_after_set_other s0 hs0
+            intro heq; apply hne; rw [eiNormKey_perf, eiNormKey_perf, heq]
+        · intro s0 _
+          rw [eiGet_perf, eiGet_perf]; exact perfRead_after_set_same s0 (roleOf kt) l
+
+theorem rolesStable_filter (p : People) (q : Text × Text → Bool) (h : rolesStable p = true) :
+    rolesStable (p.filter q) = true := by
+  simp only [rolesStable, List.all_eq_true] at h ⊢
+  intro x hx; exact h x (List.mem_filter.1 hx).1
+
+theorem perf_del_effect (s : Id3) (hs : EasyId3Inv s) (r : Text) :
+    (perfRead s r = .error .key → perfDel s r = .error .key) ∧
+    (∀ v, perfRead s r = .ok v → ∃ s', perfDel s r = .ok s' ∧ EasyId3Inv s' ∧ perfRead s' r = .error .key ∧
+      ∀ e2 t2, GoodPair e2 t2 → eiNormKey e2 t2 ≠ pPerformer ++ r → eiGet s' e2 t2 = eiGet s e2 t2) := by
+  rcases tmcl_shape s hs with hl | ⟨enc, p, hl, hp⟩
+  · refine ⟨fun _ => by unfold perfDel; rw [hl], fun v hv => ?_⟩
+    rw [perfRead_none s hl] at hv; cases hv
+  · have hdel : perfDel s r = (if (p.filter (fun x => x.1 != r) == p) = true then .error .key
+        else if (p.filter (fun x => x.1 != r)).isEmpty = true then .ok (erase kTMCL s)
+        else .ok (insert kTMCL (.tmcl enc (p.filter (fun x => x.1 != r))) s)) := by
+      unfold perfDel; rw [hl]
+    by_cases hf : p.filter (fun x => x.1 == r) = []
+    · have hrest := (people_rest_eq_iff p r).2 hf
+      refine ⟨fun _ => by rw [hdel, hrest]; simp, fun v hv => ?_⟩
+      rw [perfRead_nil s enc p hl r (by rw [hf]; rfl)] at hv; cases hv
+    · have hrest : ¬ p.filter (fun x => x.1 != r) = p := fun h => hf ((people_rest_eq_iff p r).1 h)
+      have hbeq : (p.filter (fun x => x.1 != r) == p) = false := by
+        cases hh : (p.filter (fun x => x.1 != r) == p) with
+        | false => rfl
+        | true => exact absurd (eq_of_beq hh) hrest
+      refine ⟨fun hk => ?_, fun v hv => ?_⟩
+      · exfalso
+        cases hq : (p.filter (fun x => x.1 == r)).map Prod.snd with
+        | nil => exact hf (List.map_eq_nil_iff.1 hq)
+        | cons a t => rw [perfRead_cons s enc p hl r a t hq] at hk; cases hk
+      · by_cases hemp : (p.filter (fun x => x.1 != r)).isEmpty = true
+        · refine ⟨erase kTMCL s, by rw [hdel, hbeq]; simp [hemp], inv_erase s hs kTMCL, ?_, ?_⟩
+          · apply perfRead_none; rw [lookup_erase _ _ _ hs.1]; simp
+          · intro e2 t2 hp2 hne
+            apply pair_get_frame _ _ e2 t2 hp2
+            · intro hk hpl hhk
+              have := slot_hk_ne_tmcl e2 hp2.1 hpl hk hhk
+              exact lookup_erase_ne _ _ _ (fun h => this h.symm)
+            · intro _; exact getall_erase_other pWOAR kTMCL kTMCL_not_woar s
+            · intro he2; subst he2
+              have hr2 : roleOf t2 ≠ r := by
+                intro heq; apply hne; rw [eiNormKey_perf, heq]
+              rw [perfRead_none _ (by rw [lookup_erase _ _ _ hs.1]; simp)]
+              symm
+              apply perfRead_nil s enc p hl
+              rw [← people_rest_filter p r (roleOf t2) hr2, List.isEmpty_iff.1 hemp]; rfl
+        · have hl' : lookup kTMCL (insert kTMCL (.tmcl enc (p.filter (fun x => x.1 != r))) s) =
+              some (.tmcl enc (p.filter (fun x => x.1 != r))) := by rw [lookup_insert]; simp
+          refine ⟨insert kTMCL (.tmcl enc (p.filter (fun x => x.1 != r))) s, by rw [hdel, hbeq]; simp [hemp],
+            inv_tmcl_insert s hs enc _ (rolesStable_filter p _ hp), ?_, ?_⟩
+          · apply perfRead_nil _ enc _ hl'
+            rw [people_rest_same]; rfl
+          · intro e2 t2 hp2 hne
+            apply pair_get_frame _ _ e2 t2 hp2
+            · intro hk hpl hhk
+              have := slot_hk_ne_tmcl e2 hp2.1 hpl hk hhk
+              have hne' : ¬ kTMCL = hk := fun h => this h.symm
+              rw [lookup_insert]; simp [hne']
+            · intro _; exact getall_insert_other pWOAR kTMCL _ kTMCL_not_woar s
+            · intro he2; subst he2
+              have hr2 : roleOf t2 ≠ r := by
+                intro heq; apply hne; rw [eiNormKey_perf, heq]
+              exact perfRead_congr _ _ enc enc _ p hl' hl _ (people_rest_filter p r (roleOf t2) hr2)
+
+
+theorem pair_del_effect (s : Id3) (hs : EasyId3Inv s) (e : EIEntry) (kt : Text) (h : GoodPair e kt) :
+    (eiGet s e kt = .error .key → eiDel s e kt = .error .key) ∧
+    (∀ v, eiGet s e kt = .ok v → ∃ s', eiDel s e kt = .ok s' ∧ EasyId3Inv s' ∧ eiGet s' e kt = .error .key ∧
+      ∀ e2 t2, GoodPair e2 t2 → eiNormKey e2 t2 ≠ eiNormKey e kt → eiGet s' e2 t2 = eiGet s e2 t2) := by
+  rcases h.2 with hg | ⟨rfl, hr⟩
+  · obtain ⟨h1, h2⟩ := ei_del_effect s hs e h.1 hg kt
+    refine ⟨h1, fun v hv => ?_⟩
+    obtain ⟨s', a1, a2, a3, a4, a5⟩ := h2 v hv
+    refine ⟨s', a1, a2, a3, ?_⟩
+    intro e2 t2 hp2 hne
+    rcases hp2.2 with hg2 | ⟨rfl, _⟩
+    · apply a4 e2 t2 hp2.1 hg2
+      intro heq; subst heq
+      exact hne (by rw [eiNormKey_good e2 t2 hg2, eiNormKey_good e2 kt hg])
+    · rw [eiGet_perf, eiGet_perf]; exact perfRead_lookup _ _ _ a5
+  · rw [eiGet_perf, eiDel_perf]
+    obtain ⟨h1, h2⟩ := perf_del_effect s hs (roleOf kt)
+    refine ⟨h1, fun v hv => ?_⟩
+    obtain ⟨s', a1, a2, a3, a4⟩ := h2 v hv
+    exact ⟨s', a1, a2, by rw [eiGet_perf]; exact a3, a4⟩
+
+/-! ### `keys()` under the invariant -/
+
+theorem pair_get_good (s : Id3) (hs : EasyId3Inv s) (e : EIEntry) (t : Text) (h : GoodPair e t) :
+    eiGet s e t = .error .key ∨ ∃ v, eiGet s e t = .ok v := by
+  rcases h.2 with hg | ⟨rfl, _⟩
+  · exact eiGet_good s hs e h.1 hg t
+  · rw [eiGet_perf]; exact perfRead_good s hs _
+
+theorem reg_gainpeak (e : EIEntry) (he : e ∈ easyId3Registry)
+    (h : e.key = pReplaygain ++ [42] ++ sGain ∨ e.key = pReplaygain ++ [42] ++ sPeak) :
+    eiGood e = false ∧ e ≠ perfEntry ∧ (e.kind = .gain ∨ e.kind = .peak) := by
+  have h1 : easyId3Registry.all (fun x => !(x.key == pReplaygain ++ [42] ++ sGain || x.key == pReplaygain ++ [42] ++ sPeak) ||
+      (!eiGood x && x != perfEntry && (x.kind == .gain || x.kind == .peak))) = true := by decide +kernel
+  have := List.all_eq_true.1 h1 e he
+  have hk : (e.key == pReplaygain ++ [42] ++ sGain || e.key == pReplaygain ++ [42] ++ sPeak) = true := by
+    rcases h with h | h <;> simp [h]
+  simp only [hk, Bool.not_true, Bool.false_or, Bool.and_eq_true, Bool.not_eq_true', bne_iff_ne, ne_eq,
+    Bool.or_eq_true, beq_iff_eq] at this
+  exact ⟨this.1.1, this.1.2, this.2⟩
+
+theorem eiKeysOf_gainpeak (s : Id3) (hs : EasyId3Inv s) (e : EIEntry) (he : e ∈ easyId3Registry)
+    (h : e.key = pReplaygain ++ [42] ++ sGain ∨ e.key = pReplaygain ++ [42] ++ sPeak) : eiKeysOf s e = [] := by
+  obtain ⟨_, _, hk⟩ := reg_gainpeak e he h
+  unfold eiKeysOf
+  rcases hk with hk | hk
+  · simp only [hk]; exact gainKeys_inv s hs
+  · have hkey : e.key = pReplaygain ++ [42] ++ sPeak := by
+      rcases h with h | h
+      · exfalso
+        have h1 : easyId3Registry.all (fun x => !(x.kind == .peak) || x.key == pReplaygain ++ [42] ++ sPeak) = true := by
+          decide +kernel
+        have := List.all_eq_true.1 h1 e he
+        simp [hk] at this
+        rw [h] at this; revert this; decide
+      · exact h
+    have hg : easyId3Get s (.str e.key) = .error .key := by
+      simp only [easyId3Get, eiEntryOf_plain e he, eiGet, hk]
+      have hd : descOf e.key = [42] := by rw [hkey]; decide
+      rw [hd, inv_no_rva2star s hs]
+    simp only [hk, eiKeyIfPresent, hg]
+
+theorem mem_eiKeysOf (s : Id3) (hs : EasyId3Inv s) (e : EIEntry) (he : e ∈ easyId3Registry) (t : Text) :
+    t ∈ eiKeysOf s e ↔ GoodPair e t ∧ eiNormKey e t = t ∧ ∃ v, eiGet s e t = .ok v := by
+  rcases reg_kinds e he with hg | rfl | hgp | hgp
+  · -- single-frame / website entry
+    have hg' : easyId3Get s (.str e.key) = eiGet s e e.key := by simp [easyId3Get, eiEntryOf_plain e he]
+    have hform : eiKeysOf s e = eiKeyIfPresent s e := by
+      unfold eiKeysOf
+      rcases eiGood_cases e hg with h | h
+      · unfold eiPlain at h
+        cases hkd : e.kind <;> simp only [hkd] at h ⊢ <;> simp at h
+      · simp only [h]
+    rw [hform]
+    constructor
+    · intro hm
+      rcases eiGet_good s hs e he hg e.key with h1 | ⟨v, h1⟩
+      · simp [eiKeyIfPresent, hg', h1] at hm
+      · have : t = e.key := by simpa [eiKeyIfPresent, hg', h1] using hm
+        subst this
+        exact ⟨⟨he, Or.inl hg⟩, eiNormKey_good e _ hg, v, h1⟩
+    · rintro ⟨_, hn, v, hv⟩
+      rw [eiNormKey_good e t hg] at hn
+      subst hn
+      simp [eiKeyIfPresent, hg', hv]
+  · -- performer:*
+    have hform : eiKeysOf s perfEntry = performerKeys s := by unfold eiKeysOf; simp only [perfEntry]
+    rw [hform]
+    unfold performerKeys peopleOf
+    rcases tmcl_shape s hs with hl | ⟨enc, p, hl, hp⟩
+    · simp only [hl, List.not_mem_nil, false_iff]
+      rintro ⟨_, _, v, hv⟩
+      rw [eiGet_perf, perfRead_none s hl] at hv; cases hv
+    · simp only [hl, mem_dedup, List.mem_map]
+      constructor
+      · rintro ⟨x, hx, rfl⟩
+        have hst : pyLower x.1 = x.1 := by
+          have := List.all_eq_true.1 hp x hx; simpa using this
+        refine ⟨⟨perfEntry_mem, Or.inr ⟨rfl, by rw [roleOf_perf]; exact hst⟩⟩, by rw [eiNormKey_perf, roleOf_perf], ?_⟩
+        rw [eiGet_perf, roleOf_perf]
+        cases hq : (p.filter (fun y => y.1 == x.1)).map Prod.snd with
+        | nil =>
+          exfalso
+          have : x ∈ p.filter (fun y => y.1 == x.1) := List.mem_filter.2 ⟨hx, by simp⟩
+          rw [List.map_eq_nil_iff.1 hq] at this; cases this
+        | cons a r => exact ⟨_, perfRead_cons s enc p hl x.1 a r hq⟩
+      · rintro ⟨_, hn, v, hv⟩
+        rw [eiNormKey_perf] at hn
+        rw [eiGet_perf] at hv
+        cases hq : p.filter (fun y => y.1 == roleOf t) with
+        | nil => rw [perfRead_nil s enc p hl _ (by rw [hq]; rfl)] at hv; cases hv
+        | cons x r =>
+          have hx : x ∈ p.filter (fun y => y.1 == roleOf t) := by rw [hq]; simp
+          obtain ⟨hxp, hxr⟩ := List.mem_filter.1 hx
+          exact ⟨x, hxp, by rw [← hn]; congr 1; simpa using hxr⟩
+  · rw [eiKeysOf_gainpeak s hs e he (Or.inl hgp)]
+    obtain ⟨h1, h2, _⟩ := reg_gainpeak e he (Or.inl hgp)
+    simp only [List.not_mem_nil, false_iff]
+    rintro ⟨⟨_, h | ⟨h, _⟩⟩, _⟩
+    · rw [h1] at h; cases h
+    · exact h2 h
+  · rw [eiKeysOf_gainpeak s hs e he (Or.inr hgp)]
+    obtain ⟨h1, h2, _⟩ := reg_gainpeak e he (Or.inr hgp)
+    simp only [List.not_mem_nil, false_iff]
+    rintro ⟨⟨_, h | ⟨h, _⟩⟩, _⟩
+    · rw [h1] at h; cases h
+    · exact h2 h
+
+theorem mem_easyId3Keys (s : Id3) (κ : PKey) :
+    κ ∈ easyId3Keys s ↔ ∃ e ∈ easyId3Registry, ∃ t ∈ eiKeysOf s e, κ = .str t := by
+  unfold easyId3Keys
+  simp only [List.mem_map, List.mem_flatten]
+  constructor
+  · rintro ⟨t, ⟨l, ⟨e, he, rfl⟩, ht⟩, rfl⟩; exact ⟨e, he, t, ht, rfl⟩
+  · rintro ⟨e, he, t, ht, rfl⟩; exact ⟨t, ⟨_, ⟨e, he, rfl⟩, ht⟩, rfl⟩
+
+theorem eiKeysOf_nodup (s : Id3) (hs : EasyId3Inv s) (e : EIEntry) (he : e ∈ easyId3Registry) : (eiKeysOf s e).Nodup := by
+  rcases reg_kinds e he with hg | rfl | hgp | hgp
+  · have hform : eiKeysOf s e = eiKeyIfPresent s e := by
+      unfold eiKeysOf
+      rcases eiGood_cases e hg with h | h
+      · unfold eiPlain at h
+        cases hkd : e.kind <;> simp only [hkd] at h ⊢ <;> simp at h
+      · simp only [h]
+    rw [hform]; unfold eiKeyIfPresent; split <;> simp
+  · have hform : eiKeysOf s perfEntry = performerKeys s := by unfold eiKeysOf; simp only [perfEntry]
+    rw [hform]; unfold performerKeys
+    cases peopleOf s with
+    | none => simp
+    | some p => exact nodup_dedup _
+  · rw [eiKeysOf_gainpeak s hs e he (Or.inl hgp)]; simp
+  · rw [eiKeysOf_gainpeak s hs e he (Or.inr hgp)]; simp
+
+theorem nodup_flatten_of {α : Type} (L : List (List α)) (h1 : ∀ l ∈ L, l.Nodup)
+    (h2 : L.Pairwise (fun a b => ∀ x, x ∈ a → x ∈ b → False)) : L.flatten.Nodup := by
+  induction L with
+  | nil => simp
+  | cons l t ih =>
+    rw [List.pairwise_cons] at h2
+    rw [List.flatten_cons, List.nodup_append]
+    refine ⟨h1 l (by simp), ih (fun x hx => h1 x (by simp [hx])) h2.2, ?_⟩
+    intro a ha b hb hab
+    obtain ⟨l', hl', hbl⟩ := List.mem_flatten.1 hb
+    exact h2.1 l' hl' a ha (hab ▸ hbl)
+
+theorem keys_nodup_inv (s : Id3) (hs : EasyId3Inv s) : (easyId3Keys s).Nodup := by
+  unfold easyId3Keys
+  have hflat : ((easyId3Registry.map (eiKeysOf s)).flatten).Nodup := by
+    apply nodup_flatten_of
+    · intro l hl
+      obtain ⟨e, he, rfl⟩ := List.mem_map.1 hl
+      exact eiKeysOf_nodup s hs e he
+    · rw [List.pairwise_map]
+      have hreg : easyId3Registry.Pairwise (fun a b => a.key ≠ b.key) := by
+        have := eiReg_keys_nodup
+        rw [List.Nodup, List.pairwise_map] at this; exact this
+      apply List.Pairwise.imp_of_mem _ hreg
+      intro a b ha hb hab t hta htb
+      obtain ⟨pa, na, _⟩ := (mem_eiKeysOf s hs a ha t).1 hta
+      obtain ⟨pb, nb, _⟩ := (mem_eiKeysOf s hs b hb t).1 htb
+      have := (pair_key_inj a b t t pa pb (na.trans nb.symm)).1
+      exact hab (by rw [this])
+  exact List.Pairwise.map PKey.str (fun a b h e => h (by injection e)) hflat
+
+/-- a normal key: its own pair -/
+theorem normal_pair (κ : PKey) (h : easyId3PolicyG.norm κ = .ok κ) :
+    ∃ e t, κ = .str t ∧ GoodPair e t ∧ eiNormKey e t = t ∧ eiEntryOf κ = some (e, t) := by
+  obtain ⟨e, kt, hent, hg, hp, hκ⟩ := normG_ok κ κ h
+  have hk := (eiEntryOf_goodP κ e kt hent hg).1
+  have : kt = eiNormKey e kt := by rw [hk] at hκ; injection hκ
+  exact ⟨e, kt, hk, hp, this.symm, hent⟩
+
+theorem getG_normal (s : Id3) (e : EIEntry) (t : Text) (hp : GoodPair e t) (hn : eiNormKey e t = t) :
+    easyId3ImplG.getitem s (.str t) = eiGet s e t := by
+  have := getG_pair s e t hp; rw [hn] at this; exact this
+
 theorem easyid3_viewlaws : ViewLaws easyId3ImplG easyId3PolicyG EasyId3Inv where
   keys_nodup := keys_nodup_inv
   keys_normal := fun s hs κ hκ => by
     have hκ : κ ∈ easyId3Keys s := hκ
-    rw [easyId3Keys_inv s hs, List.mem_map] at hκ
-    obtain ⟨e, hm, rfl⟩ := hκ
-    have hm' := List.mem_filter.1 hm
-    have hp : eiGood e = true := by
-      have := hm'.2; simp only [eiShown, Bool.and_eq_true] at this; exact this.1
-    exact normG_good e hm'.1 hp
+    obtain ⟨e, he, t, ht, rfl⟩ := (mem_easyId3Keys s κ).1 hκ
+    obtain ⟨hp, hn, _⟩ := (mem_eiKeysOf s hs e he t).1 ht
+    have := normG_pair e t hp; rw [hn] at this; exact this
   keys_get := fun s hs κ hκ => by
-    obtain ⟨e, kt, _, _, hp, he, rfl⟩ := normG_ok κ κ hκ
-    show PKey.str e.key ∈ easyId3Keys s ↔ _
-    rw [mem_keys_inv s hs e he, getG_good s e he hp]
-    simp only [eiShown, hp, Bool.true_and]
-    cases eiGet s e e.key <;> simp [Except.toOption]
+    obtain ⟨e, t, rfl, hp, hn, _⟩ := normal_pair κ hκ
+    rw [getG_normal s e t hp hn]
+    show PKey.str t ∈ easyId3Keys s ↔ _
+    rw [mem_easyId3Keys]
+    constructor
+    · rintro ⟨e', he', t', ht', heq⟩
+      injection heq with heq; subst heq
+      obtain ⟨hp', hn', v, hv⟩ := (mem_eiKeysOf s hs e' he' t).1 ht'
+      have := (pair_key_inj e' e t t hp' hp (hn'.trans hn.symm)).1
+      subst this; exact ⟨v, hv⟩
+    · rintro ⟨v, hv⟩
+      exact ⟨e, hp.1, t, (mem_eiKeysOf s hs e hp.1 t).2 ⟨hp, hn, v, hv⟩, rfl⟩
   get_err := fun s hs κ err hκ hg => by
-    obtain ⟨e, kt, _, _, hp, he, rfl⟩ := normG_ok κ κ hκ
-    rw [getG_good s e he hp] at hg
-    rcases eiGet_good s hs e he hp e.key with h1 | ⟨v, h1⟩
+    obtain ⟨e, t, rfl, hp, hn, _⟩ := normal_pair κ hκ
+    rw [getG_normal s e t hp hn] at hg
+    rcases pair_get_good s hs e t hp with h1 | ⟨v, h1⟩
     · rw [h1] at hg; injection hg with hg; exact hg.symm
     · rw [h1] at hg; cases hg
   norm_idem := fun k κ h => by
-    obtain ⟨e, kt, _, _, hp, he, rfl⟩ := normG_ok k κ h
-    exact normG_good e he hp
+    obtain ⟨e, kt, _, _, hp, rfl⟩ := normG_ok k κ h
+    exact normG_pair e kt hp
   get_norm := fun s k κ hs h => by
-    obtain ⟨e, kt, hent, hg, hp, he, rfl⟩ := normG_ok k κ h
-    rw [getG_good s e he hp]
+    obtain ⟨e, kt, hent, hg, hp, rfl⟩ := normG_ok k κ h
+    rw [getG_pair s e kt hp]
     simp only [easyId3ImplG, hg, ↓reduceIte, easyId3Get, hent]
-    exact eiGet_kt s e kt e.key hp
   bad_key := fun s k err hs h => by
     simp only [easyId3PolicyG, easyId3Policy] at h
     cases hg : eiGoodKey k with
@@ -840,79 +1486,88 @@ theorem easyid3_viewlaws : ViewLaws easyId3ImplG easyId3PolicyG EasyId3Inv where
         subst h
         simp [easyId3ImplG, hg, easyId3Get, easyId3Set, easyId3SetFull, easyId3Del, hent]
   set_err := fun s k κ v err hs hn hc => by
-    obtain ⟨e, kt, hent, hg, hp, he, rfl⟩ := normG_ok k κ hn
+    obtain ⟨e, kt, hent, hg, hp, rfl⟩ := normG_ok k κ hn
     simp only [easyId3PolicyG, easyId3Policy, hent, eiCoerce] at hc
     simp only [easyId3ImplG, hg, ↓reduceIte, easyId3Set, easyId3SetFull, hent]
-    rcases ei_set_effect e he hp kt v with ⟨err', h1⟩ | ⟨T, h1, h2, h3, h4⟩
-    · rw [h1 []] at hc; rw [h1 s]
+    rcases pair_set_effect e kt hp v with ⟨err', h1⟩ | ⟨T, h1, h2, h3, h4⟩
+    · rw [h1 [] easyId3Inv_nil] at hc; rw [h1 s hs]
       simpa using hc
     · exfalso
-      rw [h1 []] at hc
-      rcases eiGet_good (T []) (h2 [] easyId3Inv_nil) e he hp kt with h5 | ⟨vv, h5⟩ <;> simp [h5] at hc
+      rw [h1 [] easyId3Inv_nil] at hc
+      rcases pair_get_good (T []) (h2 [] easyId3Inv_nil) e kt hp with h5 | ⟨vv, h5⟩ <;> simp [h5] at hc
   set_some := fun s k κ v v' hs hn hc => by
-    obtain ⟨e, kt, hent, hg, hp, he, rfl⟩ := normG_ok k κ hn
+    obtain ⟨e, kt, hent, hg, hp, rfl⟩ := normG_ok k κ hn
     simp only [easyId3PolicyG, easyId3Policy, hent, eiCoerce] at hc
-    rcases ei_set_effect e he hp kt v with ⟨err', h1⟩ | ⟨T, h1, h2, h3, h4⟩
-    · rw [h1 []] at hc; simp at hc
-    · rw [h1 []] at hc
+    rcases pair_set_effect e kt hp v with ⟨err', h1⟩ | ⟨T, h1, h2, h3, h4⟩
+    · rw [h1 [] easyId3Inv_nil] at hc; simp at hc
+    · rw [h1 [] easyId3Inv_nil] at hc
       have hread : eiGet (T []) e kt = .ok v' := by
-        rcases eiGet_good (T []) (h2 [] easyId3Inv_nil) e he hp kt with h5 | ⟨vv, h5⟩ <;> simp [h5] at hc
+        rcases pair_get_good (T []) (h2 [] easyId3Inv_nil) e kt hp with h5 | ⟨vv, h5⟩ <;> simp [h5] at hc
         rw [h5, hc]
       refine ⟨T s, ?_, h2 s hs, ?_⟩
-      · simp [easyId3ImplG, hg, easyId3Set, easyId3SetFull, hent, h1 s]
+      · simp [easyId3ImplG, hg, easyId3Set, easyId3SetFull, hent, h1 s hs]
       · intro κ2 hn2
-        obtain ⟨e2, kt2, _, _, hp2, he2, rfl⟩ := normG_ok κ2 κ2 hn2
-        rw [getG_good _ e2 he2 hp2, getG_good _ e2 he2 hp2]
-        by_cases heq : e = e2
-        · subst heq
-          simp only [↓reduceIte]
-          rw [eiGet_kt _ e e.key kt hp, h4 s, hread]
-        · have hne : ¬ PKey.str e.key = PKey.str e2.key := fun h => heq (str_key_inj e e2 he he2 (by injection h))
+        obtain ⟨e2, t2, rfl, hp2, hnk2, _⟩ := normal_pair κ2 hn2
+        rw [getG_normal _ e2 t2 hp2 hnk2, getG_normal _ e2 t2 hp2 hnk2]
+        by_cases heq : eiNormKey e kt = t2
+        · have hpi := pair_key_inj e e2 kt t2 hp hp2 (heq.trans hnk2.symm)
+          obtain ⟨rfl, hrole⟩ := hpi
+          simp only [heq, ↓reduceIte]
+          have : eiGet (T s) e t2 = eiGet (T s) e kt := by
+            rw [pair_get_norm _ e t2 hp2, pair_get_norm _ e kt hp, hnk2, heq]
+          rw [this, h4 s hs, hread]
+        · have hne : ¬ PKey.str (eiNormKey e kt) = PKey.str t2 := fun h => heq (by injection h)
           simp only [hne, ↓reduceIte]
-          exact h3 s e2 e2.key he2 hp2 (fun h => heq h.symm)
+          exact h3 s e2 t2 hs hp2 (by rw [hnk2]; exact fun h => heq h.symm)
   set_none := fun s k κ v hs hn hc => by
-    obtain ⟨e, kt, hent, hg, hp, he, rfl⟩ := normG_ok k κ hn
+    obtain ⟨e, kt, hent, hg, hp, rfl⟩ := normG_ok k κ hn
     simp only [easyId3PolicyG, easyId3Policy, hent, eiCoerce] at hc
-    rcases ei_set_effect e he hp kt v with ⟨err', h1⟩ | ⟨T, h1, h2, h3, h4⟩
-    · rw [h1 []] at hc; simp at hc
-    · rw [h1 []] at hc
+    rcases pair_set_effect e kt hp v with ⟨err', h1⟩ | ⟨T, h1, h2, h3, h4⟩
+    · rw [h1 [] easyId3Inv_nil] at hc; simp at hc
+    · rw [h1 [] easyId3Inv_nil] at hc
       have hread : eiGet (T []) e kt = .error .key := by
-        rcases eiGet_good (T []) (h2 [] easyId3Inv_nil) e he hp kt with h5 | ⟨vv, h5⟩
+        rcases pair_get_good (T []) (h2 [] easyId3Inv_nil) e kt hp with h5 | ⟨vv, h5⟩
         · exact h5
         · simp [h5] at hc
       refine ⟨T s, ?_, h2 s hs, ?_⟩
-      · simp [easyId3ImplG, hg, easyId3Set, easyId3SetFull, hent, h1 s]
+      · simp [easyId3ImplG, hg, easyId3Set, easyId3SetFull, hent, h1 s hs]
       · intro κ2 hn2
-        obtain ⟨e2, kt2, _, _, hp2, he2, rfl⟩ := normG_ok κ2 κ2 hn2
-        rw [getG_good _ e2 he2 hp2, getG_good _ e2 he2 hp2]
-        by_cases heq : e = e2
-        · subst heq
-          simp only [↓reduceIte]
-          rw [eiGet_kt _ e e.key kt hp, h4 s, hread]
-        · have hne : ¬ PKey.str e.key = PKey.str e2.key := fun h => heq (str_key_inj e e2 he he2 (by injection h))
+        obtain ⟨e2, t2, rfl, hp2, hnk2, _⟩ := normal_pair κ2 hn2
+        rw [getG_normal _ e2 t2 hp2 hnk2, getG_normal _ e2 t2 hp2 hnk2]
+        by_cases heq : eiNormKey e kt = t2
+        · have hpi := pair_key_inj e e2 kt t2 hp hp2 (heq.trans hnk2.symm)
+          obtain ⟨rfl, hrole⟩ := hpi
+          simp only [heq, ↓reduceIte]
+          have : eiGet (T s) e t2 = eiGet (T s) e kt := by
+            rw [pair_get_norm _ e t2 hp2, pair_get_norm _ e kt hp, hnk2, heq]
+          rw [this, h4 s hs, hread]
+        · have hne : ¬ PKey.str (eiNormKey e kt) = PKey.str t2 := fun h => heq (by injection h)
           simp only [hne, ↓reduceIte]
-          exact h3 s e2 e2.key he2 hp2 (fun h => heq h.symm)
+          exact h3 s e2 t2 hs hp2 (by rw [hnk2]; exact fun h => heq h.symm)
   del_absent := fun s k κ hs hn hg0 => by
-    obtain ⟨e, kt, hent, hg, hp, he, rfl⟩ := normG_ok k κ hn
-    rw [getG_good s e he hp, eiGet_kt s e e.key kt hp] at hg0
+    obtain ⟨e, kt, hent, hg, hp, rfl⟩ := normG_ok k κ hn
+    rw [getG_pair s e kt hp] at hg0
     simp only [easyId3ImplG, hg, ↓reduceIte, easyId3Del, hent]
-    exact (ei_del_effect s hs e he hp kt).1 hg0
+    exact (pair_del_effect s hs e kt hp).1 hg0
   del_present := fun s k κ v hs hn hg0 => by
-    obtain ⟨e, kt, hent, hg, hp, he, rfl⟩ := normG_ok k κ hn
-    rw [getG_good s e he hp, eiGet_kt s e e.key kt hp] at hg0
-    obtain ⟨s', h1, h2, h3, h4⟩ := (ei_del_effect s hs e he hp kt).2 v hg0
+    obtain ⟨e, kt, hent, hg, hp, rfl⟩ := normG_ok k κ hn
+    rw [getG_pair s e kt hp] at hg0
+    obtain ⟨s', h1, h2, h3, h4⟩ := (pair_del_effect s hs e kt hp).2 v hg0
     refine ⟨s', ?_, h2, ?_⟩
     · simp [easyId3ImplG, hg, easyId3Del, hent, h1]
     · intro κ2 hn2
-      obtain ⟨e2, kt2, _, _, hp2, he2, rfl⟩ := normG_ok κ2 κ2 hn2
-      rw [getG_good _ e2 he2 hp2, getG_good _ e2 he2 hp2]
-      by_cases heq : e = e2
-      · subst heq
-        simp only [↓reduceIte]
-        rw [eiGet_kt _ e e.key kt hp, h3]
-      · have hne : ¬ PKey.str e.key = PKey.str e2.key := fun h => heq (str_key_inj e e2 he he2 (by injection h))
+      obtain ⟨e2, t2, rfl, hp2, hnk2, _⟩ := normal_pair κ2 hn2
+      rw [getG_normal _ e2 t2 hp2 hnk2, getG_normal _ e2 t2 hp2 hnk2]
+      by_cases heq : eiNormKey e kt = t2
+      · have hpi := pair_key_inj e e2 kt t2 hp hp2 (heq.trans hnk2.symm)
+        obtain ⟨rfl, hrole⟩ := hpi
+        simp only [heq, ↓reduceIte]
+        have : eiGet s' e t2 = eiGet s' e kt := by
+          rw [pair_get_norm _ e t2 hp2, pair_get_norm _ e kt hp, hnk2, heq]
+        rw [this, h3]
+      · have hne : ¬ PKey.str (eiNormKey e kt) = PKey.str t2 := fun h => heq (by injection h)
         simp only [hne, ↓reduceIte]
-        exact h4 e2 e2.key he2 hp2 (fun h => heq h.symm)
+        exact h4 e2 t2 hp2 (by rw [hnk2]; exact fun h => heq h.symm)
 
 theorem easyid3_refines_aux : KRefines easyId3ImplG easyId3PolicyG EasyId3Inv (viewAbs easyId3ImplG) :=
   view_refines easyid3_viewlaws
@@ -937,6 +1592,15 @@ theorem easyid3_run_congr_aux (ops : List (Op PKey PVal)) (s : Id3) (hs : EasyId
   guard_run easyid3_guardOf EasyId3Inv keys_good_inv
     (fun s op hs => (kstep_exact easyid3_refines_aux s hs op).2.1) ops s hs hops
 
+
+theorem perfSet_form (s : Id3) (r : Text) (l : List Text) :
+    (∃ err, perfSet s r l = (.error err, s)) ∨ (∃ f, perfSet s r l = (.ok (), insert kTMCL f s)) := by
+  unfold perfSet
+  split
+  · right; exact ⟨_, rfl⟩
+  · right; exact ⟨_, rfl⟩
+  · left; exact ⟨_, rfl⟩
+
 /-- on a good key a raising `__setitem__` leaves the native tags alone (no residue) -/
 theorem setFull_good (s : Id3) (k : PKey) (v : PVal) (hg : eiGoodKey k = true) :
     (∃ err, easyId3SetFull s k v = (.error err, s)) ∨ (∃ s', easyId3SetFull s k v = (.ok (), s')) := by
@@ -945,10 +1609,22 @@ theorem setFull_good (s : Id3) (k : PKey) (v : PVal) (hg : eiGoodKey k = true) :
   | none => left; exact ⟨.key, rfl⟩
   | some p =>
     obtain ⟨e, kt⟩ := p
-    obtain ⟨hp, he, _, _⟩ := eiEntryOf_good k e kt hent hg
-    rcases ei_set_effect e he hp kt v with ⟨err, h1⟩ | ⟨T, h1, _⟩
-    · left; exact ⟨err, h1 s⟩
-    · right; exact ⟨T s, h1 s⟩
+    obtain ⟨_, hp⟩ := eiEntryOf_goodP k e kt hent hg
+    simp only
+    rcases hp.2 with hgd | ⟨rfl, _⟩
+    · rcases ei_set_effect e hp.1 hgd kt v with ⟨err, h1⟩ | ⟨T, h1, _⟩
+      · left; exact ⟨err, h1 s⟩
+      · right; exact ⟨T s, h1 s⟩
+    · cases hi : eiItems v with
+      | none => left; exact ⟨_, eiSet_perf_none s kt v hi⟩
+      | some items =>
+        cases ht : eiTexts items with
+        | none => left; exact ⟨_, eiSet_perf_notexts s kt v items hi ht⟩
+        | some l =>
+          rw [eiSet_perf_some s kt v items l hi ht]
+          rcases perfSet_form s (roleOf kt) l with ⟨err, h⟩ | ⟨f, h⟩
+          · left; exact ⟨err, h⟩
+          · right; exact ⟨_, h⟩
 
 theorem updateFull_good (l : List (PKey × PVal)) (hl : ∀ p ∈ l, eiGoodKey p.1 = true) :
     ∀ s, easyId3UpdateFull l s = easyId3Impl.update l s := by
@@ -996,11 +1672,13 @@ theorem easyid3_real_run_congr_aux (ops : List (Op PKey PVal)) : ∀ (s : Id3), 
     simp only [easyId3Run, MapImpl.run, h1, ← h2]
     rw [ih _ (kstep_exact easyid3_refines_aux s hs op).2.1 (fun o ho => hall o (by simp [ho]))]
 
+
 /-- the native side of a successful `view[k] = v` on a good key -/
 theorem easySetG_native (s s' : Id3) (k : PKey) (v : PVal) (h : easyId3ImplG.setitem s k v = .ok s') :
     ∃ e kt, eiEntryOf k = some (e, kt) ∧
       ((∃ hk f, hkOf e = some hk ∧ eiPlain e = true ∧ slotFrame e v = .ok f ∧ s' = insert hk f s) ∨
-       (e.kind = .website ∧ ∃ l, s' = woarPut l (delallPrefix pWOAR s))) := by
+       (e.kind = .website ∧ ∃ l, s' = woarPut l (delallPrefix pWOAR s)) ∨
+       (e = perfEntry ∧ ∃ f, s' = insert kTMCL f s)) := by
   simp only [easyId3ImplG] at h
   cases hg : eiGoodKey k with
   | false => simp [hg] at h
@@ -1010,34 +1688,61 @@ theorem easySetG_native (s s' : Id3) (k : PKey) (v : PVal) (h : easyId3ImplG.set
     | none => simp [hent] at h
     | some p =>
       obtain ⟨e, kt⟩ := p
-      obtain ⟨hp, he, _, _⟩ := eiEntryOf_good k e kt hent hg
+      obtain ⟨_, hp⟩ := eiEntryOf_goodP k e kt hent hg
       refine ⟨e, kt, rfl, ?_⟩
       simp only [hent] at h
-      rcases eiGood_cases e hp with hpl | hw
-      · left
-        obtain ⟨hk, hhk, _⟩ := slot_hk e he hpl
-        simp only [eiSet_slot s e kt v hk hhk hpl] at h
-        cases hf : slotFrame e v with
-        | error err => simp [hf] at h
-        | ok f =>
-          simp only [hf, Except.ok.injEq] at h
-          exact ⟨hk, f, hhk, hpl, rfl, h.symm⟩
-      · right
-        refine ⟨hw, ?_⟩
-        unfold eiSet at h
+      rcases hp.2 with hgd | ⟨rfl, _⟩
+      · rcases eiGood_cases e hgd with hpl | hw
+        · left
+          obtain ⟨hk, hhk, _⟩ := slot_hk e hp.1 hpl
+          simp only [eiSet_slot s e kt v hk hhk hpl] at h
+          cases hf : slotFrame e v with
+          | error err => simp [hf] at h
+          | ok f =>
+            simp only [hf, Except.ok.injEq] at h
+            exact ⟨hk, f, hhk, hpl, rfl, h.symm⟩
+        · right; left
+          refine ⟨hw, ?_⟩
+          unfold eiSet at h
+          cases hi : eiItems v with
+          | none => simp [hi] at h
+          | some items =>
+            cases ht : eiTexts items with
+            | none => simp [hi, hw, ht] at h
+            | some l =>
+              simp only [hi, hw, ht, Except.ok.injEq] at h
+              exact ⟨l, h.symm⟩
+      · right; right
+        refine ⟨rfl, ?_⟩
         cases hi : eiItems v with
-        | none => simp [hi] at h
+        | none => rw [eiSet_perf_none s kt v hi] at h; simp at h
         | some items =>
           cases ht : eiTexts items with
-          | none => simp [hi, hw, ht] at h
+          | none => rw [eiSet_perf_notexts s kt v items hi ht] at h; simp at h
           | some l =>
-            simp only [hi, hw, ht, Except.ok.injEq] at h
-            exact ⟨l, h.symm⟩
+            rw [eiSet_perf_some s kt v items l hi ht] at h
+            rcases perfSet_form s (roleOf kt) l with ⟨err, hh⟩ | ⟨f, hh⟩
+            · rw [hh] at h; simp at h
+            · rw [hh] at h; simp only [Except.ok.injEq] at h; exact ⟨f, h.symm⟩
+
+theorem perfDel_form (s s' : Id3) (r : Text) (h : perfDel s r = .ok s') :
+    s' = erase kTMCL s ∨ ∃ f, s' = insert kTMCL f s := by
+  unfold perfDel at h
+  split at h
+  · cases h
+  · simp only at h
+    split at h
+    · cases h
+    · split at h
+      · left; injection h with h; exact h.symm
+      · right; injection h with h; exact ⟨_, h.symm⟩
+  · cases h
 
 theorem easyDelG_native (s s' : Id3) (k : PKey) (h : easyId3ImplG.delitem s k = .ok s') :
     ∃ e kt, eiEntryOf k = some (e, kt) ∧
       ((∃ hk, hkOf e = some hk ∧ eiPlain e = true ∧ s' = erase hk s) ∨
-       (e.kind = .website ∧ s' = delallPrefix pWOAR s)) := by
+       (e.kind = .website ∧ s' = delallPrefix pWOAR s) ∨
+       (e = perfEntry ∧ (s' = erase kTMCL s ∨ ∃ f, s' = insert kTMCL f s))) := by
   simp only [easyId3ImplG] at h
   cases hg : eiGoodKey k with
   | false => simp [hg] at h
@@ -1047,24 +1752,28 @@ theorem easyDelG_native (s s' : Id3) (k : PKey) (h : easyId3ImplG.delitem s k = 
     | none => simp [hent] at h
     | some p =>
       obtain ⟨e, kt⟩ := p
-      obtain ⟨hp, he, _, _⟩ := eiEntryOf_good k e kt hent hg
+      obtain ⟨_, hp⟩ := eiEntryOf_goodP k e kt hent hg
       refine ⟨e, kt, rfl, ?_⟩
       simp only [hent] at h
-      rcases eiGood_cases e hp with hpl | hw
-      · left
-        obtain ⟨hk, hhk, _⟩ := slot_hk e he hpl
-        simp only [eiDel_slot s e kt hk hhk hpl] at h
-        cases hl : lookup hk s with
-        | none => simp [hl] at h
-        | some f =>
-          simp only [hl, Except.ok.injEq] at h
-          exact ⟨hk, hhk, hpl, h.symm⟩
-      · right
-        refine ⟨hw, ?_⟩
-        unfold eiDel at h
-        cases hga : getallPrefix pWOAR s with
-        | nil => simp [hw, hga] at h
-        | cons p t => simp only [hw, hga, Except.ok.injEq] at h; exact h.symm
+      rcases hp.2 with hgd | ⟨rfl, _⟩
+      · rcases eiGood_cases e hgd with hpl | hw
+        · left
+          obtain ⟨hk, hhk, _⟩ := slot_hk e hp.1 hpl
+          simp only [eiDel_slot s e kt hk hhk hpl] at h
+          cases hl : lookup hk s with
+          | none => simp [hl] at h
+          | some f =>
+            simp only [hl, Except.ok.injEq] at h
+            exact ⟨hk, hhk, hpl, h.symm⟩
+        · right; left
+          refine ⟨hw, ?_⟩
+          unfold eiDel at h
+          cases hga : getallPrefix pWOAR s with
+          | nil => simp [hw, hga] at h
+          | cons p t => simp only [hw, hga, Except.ok.injEq] at h; exact h.symm
+      · right; right
+        rw [eiDel_perf] at h
+        exact ⟨rfl, perfDel_form s s' _ h⟩
 
 /-- the HashKeys the single-frame entries own -/
 def easyId3Owned : List Text := easyId3Registry.filterMap (fun e => if eiPlain e then hkOf e else none)
@@ -1075,7 +1784,8 @@ theorem mem_owned (e : EIEntry) (he : e ∈ easyId3Registry) (hp : eiPlain e = t
   exact ⟨e, he, by simp [hp, h]⟩
 
 theorem easyG_foreign_untouched (ops : List (Op PKey PVal)) (s : Id3) (a : Text) (ha : a ∉ easyId3Owned)
-    (hw : startsWith pWOAR a = false) : lookup a (easyId3ImplG.exec ops s) = lookup a s := by
+    (hw : startsWith pWOAR a = false) (ht : a ≠ kTMCL) : lookup a (easyId3ImplG.exec ops s) = lookup a s := by
+  have ht' : ¬ kTMCL = a := fun h => ht h.symm
   apply exec_preserves easyId3ImplG (fun s' => lookup a s' = lookup a s)
   · intro s0 k v s' hset hq
     have hg : eiGoodKey k = true := by
@@ -1083,22 +1793,25 @@ theorem easyG_foreign_untouched (ops : List (Op PKey PVal)) (s : Id3) (a : Text)
       | true => rfl
       | false => simp [easyId3ImplG, hg] at hset
     obtain ⟨e, kt, hent, hcase⟩ := easySetG_native s0 s' k v hset
-    obtain ⟨_, he, _, _⟩ := eiEntryOf_good k e kt hent hg
-    rcases hcase with ⟨hk, f, hhk, hp, _, rfl⟩ | ⟨_, l, rfl⟩
-    · have hne : ¬ hk = a := fun h => ha (h ▸ mem_owned e he hp hk hhk)
+    obtain ⟨_, hp⟩ := eiEntryOf_goodP k e kt hent hg
+    rcases hcase with ⟨hk, f, hhk, hpl, _, rfl⟩ | ⟨_, l, rfl⟩ | ⟨_, f, rfl⟩
+    · have hne : ¬ hk = a := fun h => ha (h ▸ mem_owned e hp.1 hpl hk hhk)
       rw [lookup_insert]; simp [hne, hq]
     · rw [lookup_woarPut_other a hw, lookup_delall]; simp [hw, hq]
+    · rw [lookup_insert]; simp [ht', hq]
   · intro s0 k s' hdel hq
     have hg : eiGoodKey k = true := by
       cases hg : eiGoodKey k with
       | true => rfl
       | false => simp [easyId3ImplG, hg] at hdel
     obtain ⟨e, kt, hent, hcase⟩ := easyDelG_native s0 s' k hdel
-    obtain ⟨_, he, _, _⟩ := eiEntryOf_good k e kt hent hg
-    rcases hcase with ⟨hk, hhk, hp, rfl⟩ | ⟨_, rfl⟩
-    · have hne : hk ≠ a := fun h => ha (h ▸ mem_owned e he hp hk hhk)
+    obtain ⟨_, hp⟩ := eiEntryOf_goodP k e kt hent hg
+    rcases hcase with ⟨hk, hhk, hpl, rfl⟩ | ⟨_, rfl⟩ | ⟨_, rfl | ⟨f, rfl⟩⟩
+    · have hne : hk ≠ a := fun h => ha (h ▸ mem_owned e hp.1 hpl hk hhk)
       rw [lookup_erase_ne _ _ _ hne]; exact hq
     · rw [lookup_delall]; simp [hw, hq]
+    · rw [lookup_erase_ne _ _ _ (fun h => ht h.symm)]; exact hq
+    · rw [lookup_insert]; simp [ht', hq]
   · rfl
 
 theorem easyId3KeysE_inv (s : Id3) (hs : EasyId3Inv s) : easyId3KeysE s = .ok (easyId3Keys s) := by
@@ -1106,22 +1819,43 @@ theorem easyId3KeysE_inv (s : Id3) (hs : EasyId3Inv s) : easyId3KeysE s = .ok (e
   have : easyId3Registry.findSome? (eiOtherErr s) = none := by
     rw [List.findSome?_eq_none_iff]
     intro e he
-    have hk := eiKeysOf_inv s hs e he
-    unfold eiOtherErr
-    unfold eiKeysOf at hk
-    cases hkd : e.kind <;> simp only [hkd] at hk ⊢ <;> try rfl
-    all_goals
-      cases hg : easyId3Get s (.str e.key) with
-      | ok v => rfl
-      | error err =>
-        simp only [hg] at hk ⊢
-        by_cases herr : err = .key
-        · subst herr; rfl
-        · exfalso
-          have hg' : easyId3Get s (.str e.key) = eiGet s e e.key := by simp [easyId3Get, eiEntryOf_plain e he]
-          rw [hg'] at hg
-          cases err <;> simp [hg, Except.toOption] at hk herr
+    have hg' : easyId3Get s (.str e.key) = eiGet s e e.key := by simp [easyId3Get, eiEntryOf_plain e he]
+    rcases reg_kinds e he with hg | rfl | hgp | hgp
+    · unfold eiOtherErr
+      rcases eiGet_good s hs e he hg e.key with h1 | ⟨v, h1⟩
+      · rcases eiGood_cases e hg with h | h
+        · unfold eiPlain at h
+          cases hkd : e.kind <;> simp only [hkd] at h ⊢ <;> first | (simp at h; done) | simp [hg', h1]
+        · simp [h, hg', h1]
+      · rcases eiGood_cases e hg with h | h
+        · unfold eiPlain at h
+          cases hkd : e.kind <;> simp only [hkd] at h ⊢ <;> first | (simp at h; done) | simp [hg', h1]
+        · simp [h, hg', h1]
+    · rfl
+    · obtain ⟨_, _, hk⟩ := reg_gainpeak e he (Or.inl hgp)
+      have hnil := eiKeysOf_gainpeak s hs e he (Or.inl hgp)
+      unfold eiOtherErr
+      rcases hk with hk | hk
+      · simp [hk]
+      · unfold eiKeysOf at hnil
+        simp only [hk, eiKeyIfPresent] at hnil ⊢
+        cases hgg : easyId3Get s (.str e.key) with
+        | ok v => rfl
+        | error err =>
+          rw [hgg] at hnil
+          cases err <;> simp at hnil ⊢
+    · obtain ⟨_, _, hk⟩ := reg_gainpeak e he (Or.inr hgp)
+      have hnil := eiKeysOf_gainpeak s hs e he (Or.inr hgp)
+      unfold eiOtherErr
+      rcases hk with hk | hk
+      · simp [hk]
+      · unfold eiKeysOf at hnil
+        simp only [hk, eiKeyIfPresent] at hnil ⊢
+        cases hgg : easyId3Get s (.str e.key) with
+        | ok v => rfl
+        | error err =>
+          rw [hgg] at hnil
+          cases err <;> simp at hnil ⊢
   rw [this]
-
 
 end Mutagen.Dict
